@@ -95,30 +95,110 @@ func (h *harness) superseded(s *subState, r *emitRec) *emitRec {
 	return nil
 }
 
-// replayRequired: the type is stateful, some ok event x of it was emitted entirely before
-// the subscription, and an emitter or typed subscription of the type existed from before
-// x until after Subscribe returned (the bus documents that a type's state lives as long
-// as it has emitters or subscribers).
-func (h *harness) replayRequired(s *subState, t int) bool {
-	if !h.sc.Stateful[t] {
-		return false
-	}
-	for _, x := range h.all {
-		if x.typ != t || !x.ok() || x.end >= s.subBegin {
-			continue
-		}
-		for _, e := range h.ems {
-			if e.typ == t && e.createdRet != 0 && e.createdRet < x.begin && (e.closeCall == 0 || e.closeCall > s.subRet) {
-				return true
-			}
-		}
-		for _, o := range h.subs {
-			if o != s && !o.wild && o.types[t] && o.subRet != 0 && o.subRet < x.begin && (o.closeCall == 0 || o.closeCall > s.subRet) {
-				return true
-			}
+// declaredStateful: a Stateful emitter of type t was being opened or had been opened
+// before stamp (its bus.Emitter call began before stamp and was accepted): the type may
+// remember events from then on.
+func (h *harness) declaredStateful(t int, stamp int64) bool {
+	for _, e := range h.ems {
+		if e.typ == t && e.stateful && e.createdRet != 0 && e.createdCall < stamp {
+			return true
 		}
 	}
 	return false
+}
+
+// inUseThroughout: going by the call stamps alone, type t had at every moment from stamp a
+// to stamp b at least one emitter that had been returned and not yet been asked to close,
+// or one typed subscription (other than skip) likewise. The bus documents that a type's
+// state lives as long as the type has emitters or subscribers; this is the chain of
+// overlapping lifetimes that keeps it alive, whoever opened or closed what in between.
+func (h *harness) inUseThroughout(t int, a, b int64, skip *subState) bool {
+	type span struct{ from, to int64 }
+	const open = int64(1) << 62
+	var spans []span
+	add := func(from, closeCall int64) {
+		if from == 0 {
+			return
+		}
+		if closeCall == 0 {
+			closeCall = open
+		}
+		spans = append(spans, span{from, closeCall})
+	}
+	for _, e := range h.ems {
+		if e.typ == t {
+			add(e.createdRet, e.closeCall)
+		}
+	}
+	for _, o := range h.subs {
+		if o != skip && !o.wild && o.types[t] {
+			add(o.subRet, o.closeCall)
+		}
+	}
+	reach := a // in use from a up to and including reach
+	for grown := true; grown && reach <= b; {
+		grown = false
+		for _, sp := range spans {
+			if sp.from <= reach && sp.to > reach {
+				reach, grown = sp.to, true
+			}
+		}
+	}
+	return reach > b
+}
+
+// replayInfo says what a required replay went through (coverage only).
+type replayInfo struct {
+	plainOpenedSince  bool // an emitter WITHOUT Stateful was opened for the type after it had become stateful and before the subscription
+	plainOpenedBefore bool // the type became stateful although an emitter without Stateful had been opened for it earlier (and was still open)
+	declarersClosed   bool // every Stateful emitter of the type had been asked to close before the subscription: plain emitters / subscriptions kept the type
+	midHistory        bool // one of the disagreeing emitters was opened by a step of the history, after events of the type
+}
+
+// replayRequired: some Stateful emitter d of the type had been returned ("a type is
+// stateful once any emitter declared it so"), some ok event x of the type was emitted
+// after that and entirely before the subscription, and the type was in use all the way
+// from d's creation until after Subscribe returned - by whichever emitters (Stateful or
+// not) and typed subscriptions: opening further emitters for the type, with or without
+// Stateful, or closing some of them (d included) does not end the type's statefulness.
+func (h *harness) replayRequired(s *subState, t int) (bool, replayInfo) {
+	var info replayInfo
+	for _, d := range h.ems {
+		if d.typ != t || !d.stateful || d.createdRet == 0 || d.createdRet >= s.subBegin {
+			continue
+		}
+		have := false
+		for _, x := range h.all {
+			if x.typ == t && x.ok() && x.begin > d.createdRet && x.end < s.subBegin {
+				have = true
+				break
+			}
+		}
+		if !have || !h.inUseThroughout(t, d.createdRet, s.subRet, s) {
+			continue
+		}
+		info.declarersClosed = true
+		for _, e := range h.ems {
+			if e.typ != t || e.createdRet == 0 || e.createdCall > s.subBegin {
+				continue
+			}
+			if e.stateful {
+				if e.closeCall == 0 || e.closeCall > s.subBegin {
+					info.declarersClosed = false
+				}
+				continue
+			}
+			if e.createdCall > d.createdRet {
+				info.plainOpenedSince = true
+				info.midHistory = info.midHistory || e.midHistory
+			} else if e.createdRet < d.createdCall && (e.closeCall == 0 || e.closeCall > d.createdRet) {
+				info.plainOpenedBefore = true
+				info.midHistory = info.midHistory || d.midHistory
+			}
+		}
+		return true, info
+	}
+	return false, info
 }
 
 func (h *harness) checkSub(s *subState) {
@@ -199,8 +279,8 @@ func (h *harness) checkSub(s *subState) {
 		if rec.end == 0 || rec.end >= s.subBegin {
 			continue
 		}
-		if !h.sc.Stateful[rec.typ] {
-			h.fail("s%d received %v, emitted before it subscribed, for a type that is not stateful", s.id, rec)
+		if !h.declaredStateful(rec.typ, rec.end) {
+			h.fail("s%d received %v, emitted before it subscribed, for a type that no emitter had declared stateful by then", s.id, rec)
 			return
 		}
 		if i < len(seq) && firstOfType[rec.typ] != rec {
@@ -218,7 +298,11 @@ func (h *harness) checkSub(s *subState) {
 	drained := s.eager && !s.closeIssued
 	if !s.wild {
 		for t := 0; t < nTypes; t++ {
-			if !s.types[t] || !h.replayRequired(s, t) {
+			if !s.types[t] {
+				continue
+			}
+			required, info := h.replayRequired(s, t)
+			if !required {
 				continue
 			}
 			f := firstOfType[t]
@@ -233,6 +317,25 @@ func (h *harness) checkSub(s *subState) {
 				continue // read while Close was draining: the retained event may have been swallowed
 			}
 			h.label("stateful-replay-checked")
+			if info.plainOpenedSince || info.plainOpenedBefore {
+				h.mixedReplayChecked = true
+				h.label("stateful-replay-checked:emitters-disagree-on-stateful")
+			}
+			if info.plainOpenedSince {
+				h.label("stateful-replay-checked:plain-emitter-opened-after-stateful-one")
+			}
+			if info.plainOpenedBefore {
+				h.label("stateful-replay-checked:stateful-emitter-opened-after-plain-one")
+			}
+			if info.declarersClosed {
+				h.label("stateful-replay-checked:every-stateful-emitter-closed-before-subscribe")
+			}
+			if info.midHistory {
+				h.label("stateful-replay-checked:disagreeing-emitter-opened-mid-history")
+			}
+			if !h.ems[f.em].stateful {
+				h.label("stateful-replay-checked:first-event-from-plain-emitter")
+			}
 			if f.begin > s.subRet {
 				h.fail("s%d: first event of stateful type %c is %v, emitted after Subscribe returned; the retained event was skipped or came later", s.id, 'A'+t, f)
 				return
@@ -360,7 +463,7 @@ func (h *harness) summary() *result {
 			}
 			if overlap(x, s.subBegin, s.subRet) {
 				h.label("subscribe-overlaps-emit")
-				if !s.wild && h.sc.Stateful[x.typ] {
+				if !s.wild && h.declaredStateful(x.typ, s.subRet) {
 					for _, o := range h.all {
 						if o.typ == x.typ && o != x && o.begin != 0 && o.begin < s.subBegin {
 							res.nontrivial = true
@@ -422,8 +525,39 @@ func (h *harness) summary() *result {
 					h.label("refused-sub:type-before-offending-element-emitted-beyond-its-buffer")
 				}
 			}
-			if h.sc.Stateful[t] && retained && after > 0 {
+			if h.declaredStateful(t, r.begin) && retained && after > 0 {
 				h.label("refused-sub:named-stateful-type-with-retained-event-emitted-afterwards")
+			}
+		}
+	}
+	// Emitters of one type that disagree on Stateful: which orders occurred, and whether the
+	// later one was opened in the middle of the history (after events of the type).
+	if h.mixedReplayChecked {
+		res.nontrivial = true
+	}
+	for _, e := range h.ems {
+		for _, o := range h.ems {
+			if e.typ != o.typ || e.createdRet == 0 || o.createdRet == 0 || !e.stateful || o.stateful {
+				continue
+			}
+			// e asked for Stateful, o did not
+			h.label("emitters-disagree-on-stateful")
+			first, second, what := e, o, "plain-emitter-opened-after-stateful-one"
+			if o.createdRet < e.createdCall {
+				first, second, what = o, e, "stateful-emitter-opened-after-plain-one"
+			} else if !(e.createdRet < o.createdCall) {
+				h.label("emitters-disagree:opened-concurrently")
+				continue
+			}
+			h.label("emitters-disagree:" + what)
+			if first.closeCall != 0 && first.closeCall < second.createdCall {
+				h.label("emitters-disagree:first-one-closed-in-between")
+			}
+			for _, x := range h.all {
+				if x.typ == e.typ && x.ok() && x.end < second.createdCall {
+					h.label("emitters-disagree:" + what + ":after-events-of-the-type")
+					break
+				}
 			}
 		}
 	}
